@@ -440,6 +440,7 @@ func allSpecs() []*pluginSpec {
 		m(`{"masks":[{"match_rules":[{"cond":"or","rules":[{"values":["x"],"mode":"contains","invert":true},{"values":["a"],"mode":"prefix"}]}],"applied_field":"f","applied_value":"v","metric_name":"mm"}]}`, "a", "f"),
 		m(`{"masks":[{"match_rules":[{"rules":[]}]}]}`), m(`{"masks":[{"match_rules":[{"rules":[{"values":[],"mode":"prefix"}]}]}]}`), m(`{"masks":[{"match_rules":[{"rules":[{"values":["a"],"mode":"bogus"}]}]}]}`),
 		m(`{"masks":[{"match_rules":[{"rules":[{"values":[""],"mode":"suffix"}]}],"re":"(a)","groups":[1]}]}`),
+		m(`{"masks":[{"match_rules":[{"rules":[{"values":["abk","x"],"mode":"suffix","case_insensitive":true},{"values":["abi","zzzzzz"],"mode":"prefix","case_insensitive":true}]}],"re":"(a)","groups":[1]}]}`),
 		m(`{"masks":[{"re":"(a)","groups":[1],"do_if":{"op":"equal","field":"b","values":["a"]}}]}`, "a", "b"),
 		m(`{"masks":[{"re":"(a)","groups":[1],"do_if":{"op":"not","operands":[{"op":"byte_len_cmp","field":"b","cmp_op":"lt","value":2}]}},{"re":"(b)","groups":[1]}]}`, "a", "b"),
 		m(`{"masks":[{"re":"(a)","groups":[1],"do_if":{"op":"bogus"}}]}`), m(`{"masks":[{"re":"(a)","groups":[1],"do_if":{"op":"regex","field":"b","values":["(a"]}}]}`, "a", "b"),
@@ -505,6 +506,14 @@ func allSpecs() []*pluginSpec {
 			k8(`{"offsets_file":"/tmp/o.yaml"}`, &settingsSpec{MaxEventSize: 6, CutOffEventByLimit: true, CutOffField: "cut"}),
 			k8(`{"offsets_file":"/tmp/o.yaml"}`, &settingsSpec{MaxEventSize: 7, CutOffEventByLimit: true}),
 			k8(`{}`, nil),
+			// non-initial state: the instance has joined a line of more than 128Kb (its join buffer has grown past every
+			// threshold of the code) and holds the first chunk of the next line
+			func() cfgSpec {
+				c := k8(`{"offsets_file":"/tmp/o.yaml","split_event_size":1000000}`, nil)
+				big := `{"log":"` + strings.Repeat("y", 70000) + `"}`
+				c.Prefix = []string{big, big, `{"log":"yyyy\n"}`, `{"log":"a"}`}
+				return c
+			}(),
 		}})
 
 	return specs
